@@ -2349,6 +2349,31 @@ func (g *jgen) tplResumeOpt(maxSubs, grid int, opt jResumeOpt) (*jScenario, stri
 	if g.r.Chance(1, 5) {
 		res.topics = []uint64{topic, 2}
 	}
+	if g.r.Chance(1, 4) {
+		// a long list (5-9 names) in any order - descending, shuffled, the followed topic first, last or in the middle;
+		// the other names are topics nobody publishes on.  A topic list is a set: its length and order change nothing
+		n := 4 + g.r.Intn(5)
+		long := []uint64{topic}
+		for i := 0; i < n; i++ {
+			long = append(long, uint64(5+i))
+		}
+		switch g.r.Intn(3) {
+		case 0: // descending
+			for i, j := 0, len(long)-1; i < j; i, j = i+1, j-1 {
+				long[i], long[j] = long[j], long[i]
+			}
+		case 1: // shuffled
+			for i := len(long) - 1; i > 0; i-- {
+				j := g.r.Intn(i + 1)
+				long[i], long[j] = long[j], long[i]
+			}
+		default: // ascending but for the followed topic, which goes to the middle
+			mid := len(long) / 2
+			long[0], long[mid] = long[mid], long[0]
+		}
+		res.topics = long
+		g.c.Count("replay:resuming-subscriber-follows-a-long-unordered-topic-list")
+	}
 	if nbefore > 0 {
 		res.start = jEv(15, nbefore-1)
 	}
